@@ -57,6 +57,17 @@ def main():
     wt = a.wt
     tgt = "/var/tmp/ev-target"  # shared between evaluations (same crates), never inside /repo or /verif
     meta = {"property": a.prop, "name": a.name, "needs_to_manifest": a.needs, "ran": [], "at": time.strftime("%Y-%m-%dT%H:%M:%SZ", time.gmtime())}
+    prev_meta = os.path.join(VERIF, "seeded", a.name, "meta.json")
+    if a.skip_tests and os.path.exists(prev_meta):
+        try:
+            pm = json.load(open(prev_meta))
+            if "tests_same_as_baseline" in pm:
+                meta["tests_same_as_baseline"] = pm["tests_same_as_baseline"]
+                meta["ran"].append("cargo test --workspace comparison carried over from the first evaluation of this change (%s): same as baseline = %s" % (pm.get("at"), pm["tests_same_as_baseline"]))
+        except Exception:
+            pass
+    rev = subprocess.run(["git", "-C", "/repo", "rev-parse", "--short", "HEAD"], stdout=subprocess.PIPE).stdout.decode().strip()
+    meta["repo_head"] = rev
     sh(["git", "-C", "/repo", "worktree", "remove", "--force", wt])
     shutil.rmtree(wt, ignore_errors=True)
     rc, out = sh(["git", "-C", "/repo", "worktree", "add", "--detach", wt, "HEAD"])
